@@ -103,3 +103,20 @@ def parseObjOnly (ts : List String) : Option (Obj × List String) :=
   | _ => none
 
 end Ruma.Proto
+
+namespace Ruma.Proto
+
+partial def driverLoop (handle : List String → String) (h out : IO.FS.Stream) : IO Unit := do
+  let line ← h.getLine
+  if line.isEmpty then return ()
+  let toks := (line.trimAscii.toString.splitOn " ").filter (· ≠ "")
+  out.putStrLn (if toks.isEmpty then "bad-op" else handle toks)
+  driverLoop handle h out
+
+/-- One request per stdin line, one answer per stdout line. Stateless between lines. -/
+def runDriver (handle : List String → String) : IO Unit := do
+  let out ← IO.getStdout
+  driverLoop handle (← IO.getStdin) out
+  out.flush
+
+end Ruma.Proto
